@@ -11,6 +11,8 @@ Sequential statements use `G.call` (one thread runs its call to the end while th
 * `QuietRun k g as` — while the schedule `as` runs from `g`, no CREATE-mode open of `k` and no
   owner free of `k` is at its `sem_unlink`/re-create steps (`Call.quiet`).
 System V variants are not modelled.  Key injectivity (truncated SHA-1) is an assumption.
+Schedules also contain `Action.fail t e` (the next system call of `t` fails with `e`, scripted): §8 states what the
+failure exits of `pp_semaphore_create_handle` / `p_semaphore_acquire` / `p_semaphore_release` do (clean failure).
 -/
 namespace PV.IPC.C06
 open PV.IPC PV.Generated.IPC
@@ -281,6 +283,14 @@ theorem k_exclusion (g : G) (as : List Action) (o : ObjId) (v : Nat) (ho : o < g
         cases a with
         | start t op => simp only [exec]; rw [start_log]; exact ⟨Nat.le_refl _, Nat.le_refl _⟩
         | kill p => exact ⟨Nat.le_refl _, Nat.le_refl _⟩
+        | fail t e =>
+          simp only [exec]
+          cases hc : g.calls t with
+          | none => rw [fail_none g t e hc]; exact ⟨Nat.le_refl _, Nat.le_refl _⟩
+          | some c =>
+            rw [fail_log g t e c hc]
+            simp only [acquired, released, List.filter_cons]
+            constructor <;> split <;> simp
         | step t i =>
           simp only [exec]
           cases hc : g.calls t with
@@ -293,6 +303,54 @@ theorem k_exclusion (g : G) (as : List Action) (o : ObjId) (v : Nat) (ho : o < g
       exact ⟨Nat.le_trans h1.1 h2.1, Nat.le_trans h1.2 h2.2⟩
   have m := mono as g
   omega
+
+/-! ## 8. failing system calls
+
+`Action.fail t e`: the system call thread `t` is about to make is not performed and returns `-1 / errno = e` (EMFILE,
+ENOMEM, EACCES, a failing `sem_post`, …) — a result the name-space machine never produces by itself.  Every theorem above
+that quantifies over schedules (`List Action`) quantifies over such failures too: `one_counter_per_name`, `k_exclusion`,
+`other_*_untouched`, `crash_recoverable` hold for schedules in which any system call of any call fails.  `released` counts
+the `sem_post` calls that succeeded.  Sequential statements use `G.callF` (failure script: index of the call ↦ errno). -/
+
+/-- a failed system call changes nothing in the OS (no name, no counter) and creates no handle -/
+theorem failed_call_touches_nothing (g : G) (t : Tid) (e : Errno) :
+    (g.fail t e).os = g.os ∧ (g.fail t e).hs = g.hs := ⟨fail_os g t e, fail_hs g t e⟩
+
+/-- `p_semaphore_new` whose first `sem_open` fails with anything but EINTR / EEXIST: clean failure -/
+theorem new_failure_is_clean (g : G) (t : Tid) (h : Hid) (k : SemKey) (init : Nat) (m : Mode) (e : Errno)
+    (hi : Idle g t) (hh : g.hs h = none) (h1 : e ≠ .EINTR) (h2 : e ≠ .EEXIST) :
+    let g' := g.callF t (.newSem h k init m) [(0, e)]
+    g'.os = g.os ∧ g'.hs = g.hs ∧ g'.ret t = some (.fail e) ∧ g'.calls t = none := by
+  cases e <;> simp at h1 h2 <;> fail_simp [hi.alive, hi.idle, hh]
+
+/-- `p_semaphore_acquire` whose `sem_wait` fails with anything but EINTR: FALSE, no unit consumed -/
+theorem acquire_failure_consumes_nothing (g : G) (t : Tid) (h : Hid) (x : PSem) (e : Errno)
+    (hi : Idle g t) (hh : g.hs h = some (g.pidOf t, .sem x)) (h1 : e ≠ .EINTR) :
+    let g' := g.callF t (.acq h) [(0, e)]
+    g'.os = g.os ∧ g'.hs = g.hs ∧ g'.ret t = some (.fail e) ∧ g'.calls t = none := by
+  cases e <;> simp at h1 <;> fail_simp [hi.alive, hi.idle, hh]
+
+/-- `p_semaphore_release` whose `sem_post` fails: FALSE, no unit added -/
+theorem release_failure_adds_nothing (g : G) (t : Tid) (h : Hid) (x : PSem) (e : Errno)
+    (hi : Idle g t) (hh : g.hs h = some (g.pidOf t, .sem x)) :
+    let g' := g.callF t (.rel h) [(0, e)]
+    g'.os = g.os ∧ g'.hs = g.hs ∧ g'.ret t = some (.fail e) ∧ g'.calls t = none := by
+  fail_simp [hi.alive, hi.idle, hh]
+
+
+/-- non-vacuity: the hypotheses hold in the initial state / in `demo`, and the schedule theorems really cover failures -/
+example := new_failure_is_clean (G.init id) 0 0 (.user 0) 3 .create .EACCES ⟨rfl, rfl⟩ rfl (by decide) (by decide)
+example : ((G.init id).callF 0 (.newSem 0 (.user 0) 3 .create) [(0, .EMFILE)]).ret 0 = some (.fail .EMFILE) := by decide
+example : (((G.init id).call 0 (.newSem 0 (.user 0) 1 .open)).callF 0 (.acq 0) [(0, .EINVAL)]).ret 0 = some (.fail .EINVAL) ∧
+    ((((G.init id).call 0 (.newSem 0 (.user 0) 1 .open)).callF 0 (.acq 0) [(0, .EINVAL)]).os.sems 0).value = 1 ∧
+    ((((G.init id).call 0 (.newSem 0 (.user 0) 1 .open)).callF 0 (.rel 0) [(0, .EINVAL)]).os.sems 0).value = 1 ∧
+    -- CREATE on an existing name whose `sem_unlink` fails: the re-create sees EEXIST and the loop unlinks again
+    (((G.init id).call 0 (.newSem 0 (.user 0) 1 .open)).callF 1 (.newSem 1 (.user 0) 5 .create) [(1, .EACCES)]).ret 1
+      = some (.sem ⟨true, .user 0, 1, .create, 5⟩) := by decide
+example := k_exclusion (G.init id) [.start 0 (.newSem 0 (.user 0) 1 .open), .fail 0 .ENOMEM] 0 0
+/-- a failed release is not counted: one successful acquire, one failed release, the unit is still taken -/
+example : let g := execAll ((G.init id).call 0 (.newSem 0 (.user 0) 1 .open)) [.start 0 (.acq 0), .step 0 false, .start 0 (.rel 0), .fail 0 .EINVAL]
+    acquired 0 g.log = 1 ∧ released 0 g.log = 0 ∧ (g.os.sems 0).value = 0 := by decide
 
 /-! ## non-vacuity -/
 
